@@ -369,5 +369,21 @@ pub fn run(cases_path: &str, out_path: &str, tier: &str, seed: u64) {
         });
         sink.put(rec("c05.subpacket_mutation", json!({"key": label}), r.is_ok(), "subpacket_mutation", json!({"outcome": r.class(), "detail": r.detail()})));
     });
+    // API-built packets with legacy (old-format) and new-format headers at every length-encoding boundary
+    for n in [0usize, 1, 191, 192, 255, 256, 8383, 8384, 65535, 65536, 65537] {
+        for old_fmt in [false, true] {
+            let r = guard(|| -> Result<(), String> {
+                let v = if old_fmt { pgp::types::PacketHeaderVersion::Old } else { pgp::types::PacketHeaderVersion::New };
+                let uid = pgp::packet::UserId::from_str(v, "u".repeat(n)).map_err(|e| e.to_string())?;
+                let mut w = Vec::new();
+                uid.to_writer_with_header(&mut w).map_err(|e| e.to_string())?;
+                if uid.write_len_with_header() != w.len() {
+                    return Err(format!("UserId::write_len_with_header announces {} but {} octets are written", uid.write_len_with_header(), w.len()));
+                }
+                check_packet_value(&Packet::from(uid))
+            });
+            sink.put(rec("c05.api_header", json!({"n": n, "old_format": old_fmt}), r.is_ok(), "api_header", json!({"outcome": r.class(), "detail": r.detail()})));
+        }
+    }
     sink.finish(json!({"cells": cases.len(), "nontrivial": nontrivial.load(std::sync::atomic::Ordering::Relaxed)}));
 }
